@@ -586,8 +586,8 @@ func judgeValidation(r *Run, j *Judged, c *cls, by map[int]*OResp) {
 	// a 304 counts as validation of the stored response only if the origin was asked about *its* entity tag -
 	// not about one the client supplied for a representation it got elsewhere
 	if c.fg304 != nil && c.B != nil && r.chainExact2(c.B, e) {
-		sh, _ := r.effectiveStored(c.B, e.SeqInv)
-		if et := sh.Get("Etag"); et != "" {
+		sh, lastLink := r.effectiveStored(c.B, e.SeqInv)
+		if et := sh.Get("Etag"); et != "" && r.readAgrees(e, c.B, lastLink) {
 			j.count("C02", "validation-request-wrong")
 			if got := c.fg304.Req.Header.Get("If-None-Match"); got != et {
 				j.fail("C02", "validation-request-wrong", e, "not-the-stored-validator", "stored response sid=%d (ETag %s) was returned as validated by a 304, but the origin was asked If-None-Match=%q (client sent %q)", c.B.SID, et, got, e.Req.Header.Get("If-None-Match"))
@@ -607,8 +607,8 @@ func judgeValidation(r *Run, j *Judged, c *cls, by map[int]*OResp) {
 	// unqualified no-cache that the copy served here does not show (because the freshened response was never
 	// written back); claimed only where the chain is unambiguous
 	if _, shown := scc["no-cache"]; !shown && c.B != nil && r.chainExact(c.B, e) {
-		eff, _ := r.effectiveStored(c.B, e.SeqInv)
-		if v, ok := parseCC(eff)["no-cache"]; ok && v == "" {
+		eff, lastLink := r.effectiveStored(c.B, e.SeqInv)
+		if v, ok := parseCC(eff)["no-cache"]; ok && v == "" && r.readAgrees(e, c.B, lastLink) {
 			why, strict = append(why, "stored no-cache (from a 304)"), true
 		}
 	}
@@ -1046,6 +1046,9 @@ func judgeSIE(r *Run, j *Judged, c *cls, by map[int]*OResp) {
 	}
 	// the stored header fields in effect: B's, freshened by the 304s that validated it before this exchange
 	sh, last := r.effectiveStored(B, e.SeqInv)
+	if !r.readAgrees(e, B, last) {
+		return
+	}
 	if (sh.Get("Etag") != "" && u.Req.Header.Get("If-None-Match") != sh.Get("Etag")) ||
 		(sh.Get("Etag") == "" && sh.Get("Last-Modified") != "" && u.Req.Header.Get("If-Modified-Since") != sh.Get("Last-Modified")) {
 		return
@@ -1199,6 +1202,53 @@ func (r *Run) chainExact(B *OResp, e *Exch) bool {
 		for _, b := range since[i+1:] {
 			if began(b) < r.lastSeqOfLineage(a) {
 				return false
+			}
+		}
+	}
+	return true
+}
+
+// readAgrees: the entry this exchange read from the store (the value carrying B's body marker) also carries the
+// marker of the last link of the inferred validation chain - or the chain is just B. If the read value tells
+// another story (the 304 was written to another entry, or never written), expectations derived from the chain
+// do not describe what this exchange had in front of it.
+func (r *Run) readAgrees(e *Exch, B, last *OResp) bool {
+	if last == nil || last == B || last.Bare {
+		return true
+	}
+	seen := false
+	for _, s := range e.Store {
+		if s.Kind != "get" || s.IsIndex || s.Err != "" {
+			continue
+		}
+		hasB, hasL := false, false
+		for _, x := range s.SIDs {
+			if x == B.SID {
+				hasB = true
+			}
+			if x == last.SID {
+				hasL = true
+			}
+		}
+		if hasB {
+			seen = true
+			if hasL {
+				return true
+			}
+		}
+	}
+	if !seen {
+		return true
+	}
+	// the value read lacks the last link's marker. If that marker was never written to the store at all, the
+	// freshened response was not written back - which is what the rules relying on the chain exist to notice;
+	// if it was written (to another entry), the chain does not describe the entry this exchange read.
+	for _, s := range r.Store {
+		if s.Kind == "set" && !s.IsIndex {
+			for _, x := range s.SIDs {
+				if x == last.SID {
+					return false
+				}
 			}
 		}
 	}
@@ -1415,8 +1465,11 @@ func judgeSWR(r *Run, j *Judged, c *cls) {
 		j.fail("C20", "revalidation-count", e, "other-request", "the background revalidation is not for the request that was answered: sent %s %s %v, the caller's request was %s %s %v", u.Req.Method, u.Req.URL, rest, e.Req.Method, e.Req.URL, want)
 	}
 	// the validators as stored (a qualified no-cache may have stripped them from what the caller was given)
-	sh, _ := r.effectiveStored(c.B, e.SeqInv)
+	sh, lastLink := r.effectiveStored(c.B, e.SeqInv)
 	et, lm := sh.Get("Etag"), sh.Get("Last-Modified")
+	if !r.readAgrees(e, c.B, lastLink) {
+		et, lm = u.Req.Header.Get("If-None-Match"), u.Req.Header.Get("If-Modified-Since")
+	}
 	if r.clientConditionalSince(c.B, e.SeqInv) {
 		et, lm = u.Req.Header.Get("If-None-Match"), u.Req.Header.Get("If-Modified-Since")
 	}
@@ -1615,8 +1668,9 @@ func judgeTamper(r *Run, j *Judged, cl []*cls) {
 		// the entry stays tampered until the key is written again
 		until := ^uint64(0)
 		for _, s := range r.Store {
-			if s.Kind == "set" && s.Key == cr.Key && s.Applied && s.Seq > cr.Seq && s.Seq < until {
-				until = s.Seq
+			// (a Set replaces the file when it completes: one that was under way when the file was modified heals it too)
+			if s.Kind == "set" && s.Key == cr.Key && s.Applied && s.SeqRet > cr.Seq && s.SeqRet < until {
+				until = s.SeqRet
 			}
 		}
 		for _, s := range r.Store {
@@ -1639,19 +1693,20 @@ func judgeTamper(r *Run, j *Judged, cl []*cls) {
 				continue
 			}
 			// was this response's entry tampered with after it was last written and before this exchange read it?
+			readSeq := uint64(0)
+			for _, s := range c.e.Store {
+				if s.Kind == "get" && s.Key == cr.Key && s.Fg {
+					readSeq = s.Seq
+				}
+			}
 			lastSet := uint64(0)
 			for _, s := range r.Store {
-				if s.Kind == "set" && s.Key == cr.Key && s.Applied && s.Seq < c.e.SeqInv && s.Seq > lastSet {
-					lastSet = s.Seq
+				// (a Set replaces the file when it completes)
+				if s.Kind == "set" && s.Key == cr.Key && s.Applied && s.SeqRet != 0 && s.SeqRet < readSeq && s.SeqRet > lastSet {
+					lastSet = s.SeqRet
 				}
 			}
-			readIt := false
-			for _, s := range c.e.Store {
-				if s.Kind == "get" && s.Key == cr.Key {
-					readIt = true
-				}
-			}
-			if readIt && cr.Seq > lastSet && cr.Seq < c.e.SeqInv {
+			if readSeq != 0 && cr.Seq > lastSet && cr.Seq < readSeq {
 				j.count("C17", "tamper-served")
 				j.fail("C17", "tamper-served", c.e, "", "stored response sid=%d served from entry %q whose file had been modified at rest (seq %d)", c.B.SID, cr.Key, cr.Seq)
 			}
